@@ -269,4 +269,28 @@ def run(chk):
     common.arg_agreement_rule(chk, P, "C20", [("emit_core", "src/runtime.rs"), ("emit", "src/setup.rs")], 3)
     from . import witness
     witness.witness_rule(chk, "C20", 3)
+    if chk.tier == "thorough":
+        try:
+            P2 = mir.Program("K2a")
+            chk.use_program(P2)
+
+            def nostd():
+                ks = [k for k in P2.bodies if k.endswith("no_std_support::AmbientSlot::get")]
+                if not ks:
+                    raise mir.AnchorMissing("no_std_support::AmbientSlot::get")
+                b = P2.body(ks[0])
+                if b.calls(normal_only=True):
+                    return False, "the no_std slot's get() does work (%s)" % b.calls(normal_only=True), [], b.span
+                consts = [v for k, v in common.roots(b.origin(0)) if k == "const"]
+                if not any(str(v).endswith("EMPTY_AMBIENT_RUNTIME") for v in consts):
+                    return False, "the no_std slot does not return the constant empty runtime (%s)" % consts, [], b.span
+                e = [k for k in P2.bodies if k.endswith("no_std_support::AmbientSlot::get::EMPTY_AMBIENT_RUNTIME")]
+                eb = P2.body(e[0])
+                bl = [c for c in eb.calls(normal_only=True) if c.callee.get("name") == "build"]
+                if len(bl) != 1 or len(bl[0].args) != 5:
+                    return False, "the no_std empty runtime is not Runtime::build of five components", [], eb.span
+                return True, "", [b.span]
+            chk.ob("C20.K2a.R3:no_std-slot", "without std the slot is permanently the constant runtime of five Empty components", nostd)
+        except SystemExit as e:
+            chk.fail("C20.K2a", "emit_core --no-default-features compiles", str(e))
     return chk
